@@ -632,3 +632,18 @@ val m13_step : m13 -> event -> m13 option
 val m13_run : m13 -> event list -> m13 option
 
 val chk_C13 : event list -> bool
+
+type c11 = { t_to : nat option; t_stream : bool }
+
+type m11 = { tnow : nat; tcf : c11 map0; thb : (oid * nat) map0;
+             tcr : unit map0 }
+
+val m11_init : m11
+
+val limit : c11 -> nat -> nat option
+
+val m11_step : m11 -> event -> m11 option
+
+val m11_run : m11 -> event list -> m11 option
+
+val chk_C11 : event list -> bool
